@@ -360,7 +360,9 @@ func (c *Connection) Call(ctx context.Context, method string, params any) *Async
 		return ac
 	}
 
+	verifYield("Call:registered")
 	err = c.write(ctx, call)
+	verifYield("Call:written")
 	if debugCall {
 		log.Println("Connection.write", call.ID, call.Method, err)
 	}
@@ -521,6 +523,7 @@ func (c *Connection) readIncoming(ctx context.Context, reader Reader, preempter 
 			n   int64
 		)
 		msg, n, err = reader.Read(ctx)
+		verifYield("readIncoming:read")
 		if err != nil {
 			break
 		}
@@ -699,7 +702,9 @@ func (c *Connection) handleAsync() {
 			}
 			log.Println("handleAsync", id, req.Method, string(req.Params))
 		}
+		verifYield("handleAsync:before-handle")
 		result, err := c.handler.Handle(req.ctx, req.Request)
+		verifYield("handleAsync:handled")
 		c.processResult(c.handler, req, result, err)
 	}
 }
@@ -735,6 +740,7 @@ func (c *Connection) processResult(from any, req *incomingRequest, result any, e
 			delete(s.incomingByID, req.ID)
 		})
 		if respErr == nil {
+			verifYield("processResult:before-write")
 			writeErr := c.write(notDone{req.ctx}, response)
 			if err == nil {
 				err = writeErr
@@ -752,6 +758,7 @@ func (c *Connection) processResult(from any, req *incomingRequest, result any, e
 	_ = err
 
 	// Cancel the request and finalize the event span to free any associated resources.
+	verifYield("processResult:before-retire-incoming")
 	req.cancel()
 	c.updateInFlight(func(s *inFlightState) {
 		if s.incoming == 0 {
@@ -768,6 +775,7 @@ func (c *Connection) write(ctx context.Context, msg Message) error {
 	writer := <-c.writer
 	defer func() { c.writer <- writer }()
 	_, err := writer.Write(ctx, msg)
+	verifYield("write:done")
 
 	if err != nil && ctx.Err() == nil {
 		// The call to Write failed, and since ctx.Err() is nil we can't attribute
